@@ -1,6 +1,7 @@
 import BddVerif.Props.C13
 import BddVerif.Props.C13Count
 import BddVerif.Lemmas.AlgoEqUtilSpec
+import BddVerif.Lemmas.AlgoEq2BytesSpec
 #print axioms B.Props.C13.read_text_total
 #print axioms B.Props.C13.read_text_io_total
 #print axioms B.Props.C13.read_bytes_total
@@ -26,3 +27,6 @@ import BddVerif.Lemmas.AlgoEqUtilSpec
 #print axioms B.AlgoEqUtil.Bdd_validate_spec
 #print axioms B.AlgoEqUtil.Bdd_validate_total
 #print axioms B.AlgoEqUtil.Bdd_validate_eq_model_driver
+#print axioms B.AlgoEq2Bytes.read_bytes_total
+#print axioms B.AlgoEq2Bytes.read_bytes_io_total
+#print axioms B.AlgoEq2Bytes.Bdd_from_bytes_eq_model
